@@ -229,10 +229,12 @@ class MBTilesCache(TileCacheBase):
             if tile.source or tile.coord is None:
                 continue
             x, y, level = tile.coord
-            coords.append(x)
-            coords.append(y)
-            coords.append(level)
-            tile_dict[(x, y, level)] = tile
+            if (x, y, level) not in tile_dict:
+                coords.append(x)
+                coords.append(y)
+                coords.append(level)
+            # a request may name a coordinate more than once: every tile object gets the data
+            tile_dict.setdefault((x, y, level), []).append(tile)
 
         if not tile_dict:
             # all tiles loaded or coords are None
@@ -260,12 +262,12 @@ class MBTilesCache(TileCacheBase):
 
             for row in cursor:
                 loaded_tiles += 1
-                tile = tile_dict[(row[0], row[1], row[2])]
                 data = row[3]
-                tile.size = len(data)
-                tile.source = ImageSource(BytesIO(data))
-                if self.supports_timestamp:
-                    tile.timestamp = sqlite_datetime_to_timestamp(row[4])
+                for tile in tile_dict[(row[0], row[1], row[2])]:
+                    tile.size = len(data)
+                    tile.source = ImageSource(BytesIO(data))
+                    if self.supports_timestamp:
+                        tile.timestamp = sqlite_datetime_to_timestamp(row[4])
             cursor.close()
 
             coords = coords[999:]
